@@ -32,7 +32,7 @@ RULE = ("one case = one generated robot: URDF text with 2-8 links as a chain or 
 ASSUMPTIONS = ["the narrow phase used for the brute-force matrix is the library's gjk_intersection (its correctness is C02's subject); "
                "pairs whose answer differs between the two argument orders are treated as undecided (excluded from must, included in may)",
                "AABB overlap is the closed-interval test on the colliders' own current aabb()"]
-MIN_EVENTS = {"steps": 800, "pose_checks": 4000, "broad_phase_queries": 2500, "self_collision_checks": 800,
+MIN_EVENTS = {"geometry_checks": 3000, "steps": 800, "pose_checks": 4000, "broad_phase_queries": 2500, "self_collision_checks": 800,
               "robots_with_asymmetric_whitelists": 20, "frames_in_contact": 200}
 
 
@@ -90,6 +90,27 @@ def _overlap(a, b):
     return bool(np.all(a[:, 0] <= b[:, 1]) and np.all(a[:, 1] >= b[:, 0]))
 
 
+def _fresh_like(col, T):
+    """a new collider with the parameters of col at pose T (None for types this helper does not know)"""
+    from distance3d import colliders as C
+    try:
+        if isinstance(col, C.Sphere):
+            return C.Sphere(T[:3, 3].copy(), float(col.radius))
+        if isinstance(col, C.Box):
+            return C.Box(T, np.array(col.size, dtype=float))
+        if isinstance(col, C.Cylinder):
+            return C.Cylinder(T, float(col.radius), float(col.length))
+        if isinstance(col, C.Capsule):
+            return C.Capsule(T, float(col.radius), float(col.height))
+        if isinstance(col, C.Cone):
+            return C.Cone(T, float(col.radius), float(col.height))
+        if isinstance(col, C.MeshGraph):
+            return C.MeshGraph(T, np.array(col.vertices, dtype=float), np.array(col.triangles))
+    except Exception:  # noqa: BLE001
+        return None
+    return None
+
+
 def run_case(rng, idx, tier):
     from pytransform3d.urdf import UrdfTransformManager
     from distance3d.broad_phase import BoundingVolumeHierarchy
@@ -120,12 +141,16 @@ def run_case(rng, idx, tier):
         return rec
     # extra colliders
     extras = []
+    pose_buffers = {}
     for k in range(int(rng.integers(0, 4))):
         kind = str(rng.choice(["capsule", "cone", "mesh"]))
-        parent = "l%d" % int(rng.integers(0, nlinks))
-        T = O.pose(gen.rand_rot(rng), rng.normal(size=3) * sc * 0.5)
+        # a third of the extra frames hang directly on "origin" and are moved the simulation-loop way: one pose array
+        # that is overwritten in place and handed to add_transform again
+        parent = "origin" if rng.random() < 0.35 else "l%d" % int(rng.integers(0, nlinks))
+        T = np.ascontiguousarray(O.pose(gen.rand_rot(rng), rng.normal(size=3) * sc * 0.5))
         frame = "extra%d" % k
         tm.add_transform(frame, parent, T)
+        pose_buffers[frame] = T
         spec = gen.rand_spec(rng, kind, scale=sc * 0.5, rot=np.eye(3), c=np.zeros(3), smin=1e-2, smax=1e2)
         A2B = tm.get_transform(frame, "origin")
         spec = dict(spec, T=np.array(A2B, dtype=float))
@@ -161,7 +186,19 @@ def run_case(rng, idx, tier):
                 tm.add_transform("robot", "origin", O.pose(gen.rand_rot(rng), rng.normal(size=3) * sc))
             for frame, parent, spec in extras:
                 if rng.random() < 0.3:
-                    tm.add_transform(frame, parent, O.pose(gen.rand_rot(rng), rng.normal(size=3) * sc * 0.5))
+                    newT = O.pose(gen.rand_rot(rng), rng.normal(size=3) * sc * 0.5)
+                    if parent == "origin" and rng.random() < 0.7:
+                        pose_buffers[frame][...] = newT
+                        tm.add_transform(frame, parent, pose_buffers[frame])
+                        ev["inplace_pose_edits"] = ev.get("inplace_pose_edits", 0) + 1
+                    else:
+                        tm.add_transform(frame, parent, newT)
+                elif rng.random() < 0.1:
+                    # the collider of an existing frame is replaced (same shape, constructed somewhere else): after
+                    # update_collider_poses it has to sit at the frame's current transform
+                    sp_else = dict(spec, T=np.ascontiguousarray(O.pose(gen.rand_rot(rng), rng.normal(size=3) * 3)))
+                    bvh.add_collider(frame, gen.build(sp_else))
+                    ev["collider_replacements"] = ev.get("collider_replacements", 0) + 1
             bvh.update_collider_poses()
         except Exception as e:  # noqa: BLE001
             fail("update-exception", "step %d raised %s: %s" % (step, type(e).__name__, str(e)[:200]), exc=type(e).__name__)
@@ -181,6 +218,18 @@ def run_case(rng, idx, tier):
                 worst["pose error"] = max(worst.get("pose error", 0.0), e)
                 if e > TOL * max(1.0, float(np.abs(T[:3, 3]).max())):
                     fail("stale-pose", "step %d: collider %s is at a pose that differs from the transform manager by %.3g" % (step, f, e))
+                # the geometry the narrow phase sees (support points) must be at that pose as well: compare with a
+                # collider of the same parameters constructed directly at the transform manager's pose
+                fresh = _fresh_like(bvh.colliders_[f], np.ascontiguousarray(np.array(T, dtype=float)))
+                if fresh is not None:
+                    ev["geometry_checks"] = ev.get("geometry_checks", 0) + 1
+                    for dd in (gen.rand_dir(rng), gen.rand_dir(rng)):
+                        pa = np.asarray(bvh.colliders_[f].support_function(dd), float); pb = np.asarray(fresh.support_function(dd), float)
+                        eg = abs(float(pa @ dd) - float(pb @ dd))
+                        worst["support value vs fresh collider"] = max(worst.get("support value vs fresh collider", 0.0), eg)
+                        if eg > 1e-9 * max(1.0, float(np.abs(T[:3, 3]).max()), float(np.abs(pb).max())):
+                            fail("stale-geometry", "step %d: support point of collider %s differs from a fresh collider at the transform manager's pose by %.3g" % (step, f, eg))
+                            break
             except Exception as e2:  # noqa: BLE001
                 fail("pose-exception", "collider2origin/get_transform raised %s" % type(e2).__name__, exc=type(e2).__name__)
         # ---- broad phase model
